@@ -66,7 +66,7 @@ class _BaseITML(MahalanobisMixin):
     num_neg = len(neg_pairs)
     _lambda = np.zeros(num_pos + num_neg)
     lambdaold = np.zeros_like(_lambda)
-    gamma_proj = 1. if gamma is np.inf else gamma / (gamma + 1.)
+    gamma_proj = 1. if np.isinf(gamma) else gamma / (gamma + 1.)
     pos_bhat = np.zeros(num_pos) + self.bounds_[0]
     neg_bhat = np.zeros(num_neg) + self.bounds_[1]
     pos_vv = pos_pairs[:, 0, :] - pos_pairs[:, 1, :]
